@@ -99,7 +99,13 @@ def run(tier, seed):
         flood = next(o for o in OPS if o[0] == 'flood of new names')
         exhaustive = [(a, flood) for a in OPS if a[0] in ('select nth', 'compile plain', 'match detached 1')]
         pairs += exhaustive
-    nk = 25 if tier == 'quick' else 400
+    else:
+        # every pair of operations would take many hours at 100+ preemption points each: all pairs that share state by
+        # construction plus a large sample of the rest
+        special = [(a, b) for a, b in pairs if a is not b and any(t in a[0] and t in b[0] for t in ('ns-', 'custom-', 'nested-', 'invalid-'))]
+        flood = next(o for o in OPS if o[0] == 'flood of new names')
+        pairs = special + [(a, flood) for a in OPS if a is not flood][:12] + rnd.sample(pairs, 160)
+    nk = 25 if tier == 'quick' else 80
     total = 0
     for (na, opa), (nb, opb) in pairs:
         # number of line events of A alone
